@@ -133,10 +133,8 @@ def replay(path):
             ops.append([k, e["s"]])
         elif k in ("set", "touch", "close"):
             ops.append([k])
-        elif k == "ndone":
-            pass
-        elif k in ("stored", "notified"):
-            if e.get("op"):
+        elif k in ("stored", "notified", "ndone"):
+            if e.get("op"):      # the first sync point of a hooked notifier call carries "nbegin", its return "nend"
                 ops.append([e["op"]])
         elif k == "panic":
             ops.append(e["op"])
